@@ -33,7 +33,9 @@ ASSUMES = ['spike samples are integers in [0, n_samples); the vector is sorted f
            'recording has >= 1 channel and >= 1 sample',
            'store look-ups: queried ids belong to the store; queried channels other than -1 are distinct; '
            'claimed on the channels stored for the spike (zeros elsewhere, which the model also predicts)',
-           'values: small integers x factors that are multiples of 1/2 (exact in int16/float32/float64)']
+           'values: integers x factors that are multiples of 1/2, every product exact in float64; one export case in '
+           'five has samples at the top of the exact range of its sample type (int16 up to 32767, float32 with 24-bit '
+           'mantissas) so that a product taken in the sample type instead of the declared float64 is visible']
 TIMEOUT = {'quick': 20, 'thorough': 60}
 
 DTYPES = ['int16', 'float32', 'float64']
@@ -99,11 +101,16 @@ def _export_case(i, rng, sizes, nc, cs, samples, n, backend=None):
     w = 1 + (i % 3)
     if backend is None:
         backend = 'flat' if len(sizes) > 1 else _rot(['flat', 'array'], i)
-    return {'kind': 'export', 'inp': {
+    case = {'kind': 'export', 'inp': {
         'sizes': sizes, 'nc': nc, 'cs': cs, 'backend': backend, 'dtype': _rot(DTYPES, i),
         'spikes': [[s, r] for s, r in zip(samples, _table(rng, samples, nc, w))], 'n': n, 'w': w,
         'factor': _rot(FKEYS, i + i // 8), 'sdtype': _rot(SDTYPES[:4], i // 3), 'cache': bool(i % 2),
         'threads': 1 + i % 3}}
+    if i % 5 == 0 and sum(sizes) <= 1000:
+        amp = _amp(case['inp']['dtype'], sum(sizes), nc)
+        if amp > 1:
+            case['inp']['amp'] = amp
+    return case
 
 
 def _biased_samples(rng, nr, sizes, cs, n, k):
@@ -174,6 +181,17 @@ CORPUS = [
                                'sdtype': 'int64', 'cache': False, 'threads': 1}},
     {'kind': 'export', 'inp': {'sizes': [3], 'nc': 2, 'cs': 2, 'backend': 'array', 'dtype': 'int16',
                                'spikes': [[0, [0, 1]], [2, [1, -1]]], 'n': 3, 'w': 2, 'factor': 'np32h',
+                               'sdtype': 'int64', 'cache': False, 'threads': 1}},
+    # samples at the top of the sample type's range: int16 x int factor 2 must not wrap, float32 x 2.5 must not
+    # round (the product is to be taken in the declared float64)
+    {'kind': 'export', 'inp': {'sizes': [3], 'nc': 2, 'cs': 2, 'backend': 'array', 'dtype': 'int16', 'amp': 1024,
+                               'spikes': [[0, [0, 1]], [2, [1, -1]]], 'n': 3, 'w': 2, 'factor': 'i2',
+                               'sdtype': 'int64', 'cache': False, 'threads': 1}},
+    {'kind': 'export', 'inp': {'sizes': [3], 'nc': 2, 'cs': 2, 'backend': 'flat', 'dtype': 'int16', 'amp': 1024,
+                               'spikes': [[0, [0, 1]], [2, [1, -1]]], 'n': 3, 'w': 2, 'factor': 'npi2',
+                               'sdtype': 'int64', 'cache': False, 'threads': 1}},
+    {'kind': 'export', 'inp': {'sizes': [3], 'nc': 2, 'cs': 2, 'backend': 'array', 'dtype': 'float32', 'amp': 762599,
+                               'spikes': [[0, [0, 1]], [2, [1, -1]]], 'n': 3, 'w': 2, 'factor': 'f25',
                                'sdtype': 'int64', 'cache': False, 'threads': 1}},
     # spikes exactly on a chunk bound and on a file bound, one chunk without spikes, unsigned samples
     {'kind': 'export', 'inp': {'sizes': [2, 4], 'nc': 2, 'cs': 2, 'backend': 'flat', 'dtype': 'int16',
@@ -277,16 +295,33 @@ def _tmp():
     return tempfile.mkdtemp(prefix='c03_', dir=base)
 
 
-def _data(np, nr, nc, dtype):
-    return (10 * np.arange(nr)[:, None] + np.arange(nc)[None, :] + 1).astype(dtype)
+def _data(np, nr, nc, dtype, amp=1):
+    return ((10 * np.arange(nr)[:, None] + np.arange(nc)[None, :] + 1) * amp).astype(dtype)
 
 
-def _traces(np, d, backend, sizes, nc, cs, dtype, threads=1):
+def _amp(dtype, nr, nc):
+    """Amplitude that puts the samples at the top of their type's exact range (so that arithmetic done in
+    the recording's own sample type instead of the declared float64 overflows / rounds): int16 -> the largest
+    power of two keeping the samples <= 32767 (twice a sample does not fit int16); float32 -> an odd multiplier
+    giving 24-bit mantissas (x 2.5 is not representable in float32, exact in float64); float64 -> 1."""
+    top = 10 * (nr - 1) + nc
+    if dtype == 'int16':
+        a = 1
+        while 2 * a * top <= 32767:
+            a *= 2
+        return a
+    if dtype == 'float32':
+        a = (2 ** 24 - 1) // top
+        return a if a % 2 else a - 1
+    return 1
+
+
+def _traces(np, d, backend, sizes, nc, cs, dtype, threads=1, amp=1):
     """-> (traces object, closer, chunk info or None)"""
     from phylib.io.traces import get_ephys_reader
     from pathlib import Path
     nr = sum(sizes)
-    arr = _data(np, nr, nc, dtype)
+    arr = _data(np, nr, nc, dtype, amp)
     if backend == 'ndarray':
         return arr, None, None
     rate = cs / 600.0
@@ -321,7 +356,7 @@ def _canon(np, arr, mul=1):
     if a.ndim != 3:
         return ['badrank', list(a.shape)]
     v = a.astype(np.float64) * mul
-    if not np.all(np.isfinite(v)) or not np.all(v == np.round(v)) or np.abs(v).max(initial=0) > 1e9:
+    if not np.all(np.isfinite(v)) or not np.all(v == np.round(v)) or np.abs(v).max(initial=0) > 1e12:
         return ['garbage', a.dtype.name, list(a.shape)]
     return ['waves', a.dtype.name, [int(x) for x in a.shape], np.round(v).astype(np.int64).tolist()]
 
@@ -344,7 +379,8 @@ def _factor(np, key):
 
 def _do_export(np, d, i):
     from phylib.io.traces import export_waveforms
-    tr, close, chunkinfo = _traces(np, d, i['backend'], i['sizes'], i['nc'], i['cs'], i['dtype'], i.get('threads', 1))
+    tr, close, chunkinfo = _traces(np, d, i['backend'], i['sizes'], i['nc'], i['cs'], i['dtype'], i.get('threads', 1),
+                                   amp=i.get('amp', 1))
     try:
         samples = _samples(np, [s for s, _ in i['spikes']], i['sdtype'])
         table = np.array([r for _, r in i['spikes']], dtype=np.int64).reshape(len(i['spikes']), i['w'])
@@ -454,6 +490,7 @@ def encode(case, obs):
         return cin, (items[0] if len(items) == 1 else q.app('ObsMany', q.lst(items)))
     chunkinfo = None if crash else obs[-1]
     _, fk, f2 = FACTORS[i['factor']]
+    f2 = f2 * i.get('amp', 1)     # samples = amp x (10 r + c + 1): the amplitude is folded into the unit factor of the model
     common = [q.z(nr), q.z(i['nc']), _chunking(i, chunkinfo), _spikes(i['spikes']), q.z(i['n']), q.z(i['w']),
               fk, q.z(f2)]
     if k == 'export':
@@ -524,6 +561,7 @@ def dist(case, obs):
             out.append('extract.configs_disagree')
     else:
         out += [k + '.backend=' + i['backend'], k + '.dtype=' + i['dtype'], k + '.factor=' + i['factor'],
+                k + '.amplitude=' + ('top-of-range' if i.get('amp', 1) > 1 else 'small'),
                 k + '.sdtype=' + i['sdtype'], k + '.spikes=%s' % _bucket(len(i['spikes'])),
                 k + '.chunks=%s' % _bucket(-(-nr // i['cs']))]
         if obs[0] == 'unloadable':
